@@ -271,8 +271,11 @@ class MenuConfigState:
             self._update_menu()
 
     def set_sel_node_bool_val(self, bool_val: int) -> None:
-        sc = self.shown[self.sel_node_i].item
-        if isinstance(sc, (Symbol, Choice)) and bool_val in sc.assignable:
+        node = self.shown[self.sel_node_i]
+        sc = node.item
+        # changeable(): like the toggle, the keys act through the highlighted row only. An option defined in several
+        # places can be assignable although this row's own prompt is off
+        if self.changeable(node) and bool_val in sc.assignable:
             self._set_val(sc, bool_val)
 
     def restore_default(self, node: MenuNode) -> None:
